@@ -13,7 +13,7 @@ RULE = ('two declaration sets (Boolean, non-negative, sign-crossing and '
         'value of every variable (inside and outside hints) and value '
         'pairs, renamings incl. swaps and chains, replace_with_bdd, apply '
         'for each operator, assign_from for every point, support vs. '
-        'semantic dependence, copy to a second context and back; all '
+        'semantic dependence, copy to a second context and back; renaming, iteration, count, pick and assign_from for variables of 11-13 bits (one at a time); all '
         'compared with the same operation on explicit tables read out at '
         'bit level. evaluations = operation instances; non-trivial = '
         'predicate neither empty nor full; distinct = (declaration set, '
@@ -96,10 +96,16 @@ def shards(tier, seed):
                 out.append(dict(decl=decl, backend=be, pred=i, tier=tier))
         for be in ('cudd', 'autoref'):
             out.append(dict(decl=decl, backend=be, pred='rename'))
+    for be in ('cudd', 'autoref'):
+        for i in range(len(WIDE)):
+            out.append(dict(decl='wide', backend=be, pred='wide', pair=i))
     return out
 
 
 def cases(shard):
+    if shard['pred'] == 'wide':
+        yield dict(wide=shard['pair'], backend=shard['backend'])
+        return
     if shard['pred'] == 'rename':
         yield dict(decl=shard['decl'], backend=shard['backend'],
                    rename=True)
@@ -147,7 +153,10 @@ class Ops:
 def run_case(case, acc):
     ops = Ops(acc, case)
     try:
-        if case.get('rename'):
+        if 'wide' in case:
+            _run_wide(case, ops)
+            nontrivial = True
+        elif case.get('rename'):
             _run_rename(case, ops)
             nontrivial = True
         else:
@@ -348,6 +357,62 @@ def _check_pick(ctx, u, T, V, idx, rngs, dep, care, ops):
                     good = False
                     break
         ops.check('pick', good, care=care, got=p)
+
+
+# variables of 11-13 bits (bit names with two-digit indices): one variable
+# at a time, so that tables over the full bit range stay small
+WIDE = [('x', 'x2', (0, 2047)), ('s', 's2', (-1500, 1500)),
+        ('n', 'n2', (-2048, -1)), ('w', 'w2', (0, 5000))]
+
+
+def _run_wide(case, ops):
+    import omega.symbolic.fol as fol
+    v, v2, hint = WIDE[case['wide']]
+    ctx = fol.Context()
+    if case['backend'] == 'autoref':
+        import dd.autoref
+        ctx.bdd = dd.autoref.BDD()
+    ctx.declare(**{v: hint, v2: hint, 'k': (0, 3)})
+    lo, hi = hint
+    mid = (lo + hi) // 2
+    consts = sorted({lo, hi, mid, lo + 1, hi - 1, lo + 4, mid + 512,
+                     mid - 512, lo + 1024 if lo + 1024 <= hi else mid})
+    preds = [f'{v} = {c}' for c in consts] + [
+        f'({v} > {mid - 3}) /\\ ({v} < {mid + 9})',
+        f'({v} = {lo + 2}) \\/ ({v} = {hi - 2}) \\/ ({v} = {mid + 1})',
+        f'({v} <= {lo + 5}) /\\ (k = 2)']
+    for e in preds:
+        u = ctx.add_expr(e)
+        names = [v] + (['k'] if 'k' in ctx.support(u) else [])
+        T = ro.Reader(ctx, names).table(u)
+        r = ctx.let({v: v2}, u)
+        names2 = [v2] + names[1:]
+        T2 = ro.Reader(ctx, names2).table(r)
+        ops.check('let_rename', T2 == T, predicate=e, renaming={v: v2},
+                  got=sorted(T2)[:5], expected=sorted(T)[:5])
+        # the symbol table still decodes the ORIGINAL the same way
+        ops.check('let_rename', ro.Reader(ctx, names).table(u) == T,
+                  predicate=e, what='table of the original changed')
+        back = ctx.let({v2: v}, r)
+        ops.check('let_rename', back == u, predicate=e, what='round trip')
+        got = {tuple(d[n] for n in names2)
+               for d in ctx.pick_iter(r, care_vars=names2)}
+        ops.check('pick_iter', got == T, predicate=e, after_renaming=True,
+                  got=sorted(got)[:5], expected=sorted(T)[:5])
+        ops.check('count', ctx.count(r, care_vars=names2) == len(T),
+                  predicate=e)
+        if T:
+            d = ctx.pick(r, care_vars=names2)
+            ops.check('pick', tuple(d[n] for n in names2) in T,
+                      predicate=e, got=d)
+    for c in consts:
+        a = ctx.assign_from({v2: c})
+        ops.check('assign_from',
+                  ro.Reader(ctx, [v2]).table(a) == {(c,)}, value=c)
+        ops.check('let_value',
+                  ctx.let({v2: c}, ctx.add_expr(f'{v2} = {c}')) == ctx.true
+                  and ctx.let({v2: c}, ctx.add_expr(f'{v2} # {c}'))
+                  == ctx.false, value=c)
 
 
 def _run_rename(case, ops):
